@@ -32,7 +32,7 @@ DIVS = [1, 2, 3, 4, 4, 6, 8, 12, 12, 16, 24, 24, 48, 96]
 PROFILE = G.profile(
     max_bars=4,
     max_voices=3,
-    max_staves=2,
+    max_staves=3,  # audit: a third staff (organ, piano with ossia)
     pickup=True,
     irregular=False,
     ts_changes=True,
@@ -46,7 +46,10 @@ PROFILE = G.profile(
     grace=True,
     tuplets=True,
     divs_choices=DIVS,
+    alters=(-2, -1, -1, 0, 0, 0, 0, 0, 1, 1, 2),  # audit: double sharps and flats are pitch spellings too
 )
+HEADER_TEXTS = ["Etude Op. 10 No. 3", "A. Human Pianist", "Frèdéryk Chopin", "Sonata No. 14, Op. 27 (1st mov.)", "K. 265", "x",
+                "Chopin_op10_no3_p01.mid", "/data/scores/op10 no3.musicxml"]
 
 PPQS = [480, 480, 480, 96, 384, 960, 1000, 4000, 1, 24, 10000]
 MPQS = [500000, 500000, 500000, 250000, 1000000, 600000, 333333, 468750, 4000000]
@@ -105,6 +108,26 @@ def case(draw, tier="quick"):
     if tier == "thorough":
         prof["max_bars"] = 6
     ps = ensure_edge_onsets(draw(G.part_spec(prof)))
+    # ---- audit: voice numbers with gaps, of two digits, starting at 0; naturals stated as alter=None --------
+    vmode = draw(st.sampled_from(["same", "same", "same", "gaps", "gaps", "zero"]))
+    voices = sorted(set(n["voice"] for n in ps["notes"] if n.get("voice") is not None))
+    if vmode != "same" and voices:
+        cur = -1 if vmode == "zero" else 0
+        vmap = {}
+        for i, v in enumerate(voices):
+            cur += 1 if (vmode == "zero" and i == 0) else draw(st.sampled_from([1, 2, 4, 9]))
+            vmap[v] = cur
+        for n in ps["notes"]:
+            if n.get("voice") is not None:
+                n["voice"] = vmap[n["voice"]]
+    for n in ps["notes"]:
+        if n["kind"] in ("note", "grace") and n["alter"] == 0 and draw(st.integers(0, 3)) == 0:
+            n["alter"] = None
+    # a tie joins notes of one pitch: keep both ends spelled alike
+    byid_ = {n["id"]: n for n in ps["notes"]}
+    for n in ps["notes"]:
+        if n.get("tie_next"):
+            byid_[n["tie_next"]]["alter"] = n["alter"]
     # ---- decorate the score notes ---------------------------------------------------
     for n in ps["notes"]:
         if n["kind"] not in ("note", "grace"):
@@ -202,7 +225,40 @@ def case(draw, tier="quick"):
         "score_as": draw(st.sampled_from(["part", "part", "score", "list"])),
         "perf_as": draw(st.sampled_from(["ppart", "ppart", "performance", "list"])),
         "pp_clock": draw(st.sampled_from(["same", "same", "default"])),
+        **_audit_options(draw, ps, sounding),
     }
+
+
+def _audit_options(draw, ps, sounding):
+    """Dimensions added by the generator audit (docs/audit/C08.md); every key is read with spec.get()."""
+    api = draw(st.sampled_from(["save_match", "save_match", "from_alignment"]))
+    opt = {
+        "api": api,
+        # save_match documents a PartGroup as score_data
+        "score_in_group": draw(st.integers(0, 4)) == 0,
+        # out: a str, a pathlib.Path, or None (the MatchFile is returned and written by the caller)
+        "out_as": draw(st.sampled_from(["str", "str", "pathlib", "none"])),
+        "header": None,
+        "bare_controls": draw(st.integers(0, 2)) == 0,  # pedal dictionaries as the match importer makes them
+        "pp_build": draw(st.sampled_from(["dict", "dict", "note_array"])),
+        "resave": draw(st.sampled_from([True, True, False])),
+        "reload": None,
+        "tempo_indication": None,
+        "diff_notes": [],
+    }
+    if draw(st.integers(0, 2)) == 0:
+        names = ["performer", "composer", "piece", "score_filename", "performance_filename"]
+        opt["header"] = {k: draw(st.sampled_from(HEADER_TEXTS)) for k in names if draw(st.booleans())}
+        opt["header_path"] = draw(st.booleans())  # score_filename given as pathlib.Path (documented PathLike)
+    if draw(st.integers(0, 2)) == 0:
+        opt["reload"] = {"first_note_at_zero": draw(st.sampled_from([True, True, False])), "pedal_threshold": draw(st.sampled_from([64, 0, 1, 100, 127]))}
+    if api == "from_alignment":
+        if draw(st.booleans()):
+            opt["tempo_indication"] = draw(st.sampled_from(["Allegro", "Lento ma non troppo", "Andante con moto", "q"]))
+        if sounding and draw(st.booleans()):
+            ids = [hid for (_, _, _, hid, _) in sounding]
+            opt["diff_notes"] = sorted(set(ids[draw(st.integers(0, len(ids) - 1))] for _ in range(draw(st.integers(1, 3)))))
+    return opt
 
 
 def build(spec):
@@ -222,17 +278,37 @@ def build(spec):
              velocity=int(n["vel"]), track=int(n["track"]), channel=int(n["channel"]))
         for n in spec["pnotes"]
     ]
-    controls = [dict(number=int(c["number"]), time=float(c["time"]), value=int(c["value"]), track=0, channel=1) for c in spec["controls"]]
+    if spec.get("bare_controls", False):
+        controls = [dict(number=int(c["number"]), time=float(c["time"]), value=int(c["value"])) for c in spec["controls"]]
+    else:
+        controls = [dict(number=int(c["number"]), time=float(c["time"]), value=int(c["value"]), track=0, channel=1) for c in spec["controls"]]
     kw = {}
     if spec.get("pp_clock", "same") == "same":
         kw = dict(ppq=int(spec["ppq"]), mpq=int(spec["mpq"]))
-    ppart = PerformedPart(notes=notes, id="PP", controls=controls, **kw)
+    if spec.get("pp_build", "dict") == "note_array" and notes:
+        # the route of decode_performance: numpy scalars, float32 seconds, numpy strings as ids
+        import numpy as np
+
+        fields = [("onset_sec", "f4"), ("duration_sec", "f4"), ("pitch", "i4"), ("velocity", "i4"), ("track", "i4"), ("channel", "i4"), ("id", "U256")]
+        arr = np.array([(n["note_on"], n["note_off"] - n["note_on"], n["midi_pitch"], n["velocity"], n["track"], n["channel"], n["id"]) for n in notes], dtype=fields)
+        ppart = PerformedPart.from_note_array(arr, id="PP")
+        ppart.controls = controls
+        for k_, v_ in kw.items():
+            setattr(ppart, k_, v_)
+    else:
+        ppart = PerformedPart(notes=notes, id="PP", controls=controls, **kw)
     alignment = [dict(a) for a in spec["alignment"]]
     for a in alignment:
         if isinstance(a.get("type"), list):
             a["type"] = list(a["type"])
     sa = spec.get("score_as", "part")
-    if sa == "score":
+    if spec.get("score_in_group", False):
+        group = S.PartGroup(group_symbol="bracket", group_name="G")
+        group.children = [part]
+        part.parent = group
+        # a PartGroup alone, or as the only top-level element of a Score / list
+        score_data = group if sa == "part" else (S.Score(partlist=[group], id="s") if sa == "score" else group)
+    elif sa == "score":
         score_data = S.Score(partlist=[part], id="s")
     elif sa == "list":
         score_data = [part]
